@@ -13,7 +13,7 @@ CHECKS = {
    note="Fixed by this check: D27 (total difficulty overflow), D28 (BlockFilterHashes arithmetic / slices), D29 (MMR library arithmetic on hostile digests), D30 (last-n range check).", ref="6/C10"),
  "C17": dict(cat="exploration", technique="schedule-controlled concurrency testing: two real threads, the harness parks operation A before each of its storage writes in turn (write hook in pause mode) and runs operation B meanwhile; differential oracle against both serial orders on identical generated worlds, then model-based convergence check; progress watchdog for deadlocks",
    text="Generated mid-sync worlds with requests in flight x ordered pairs (A, B) of operations that run on different threads in the client (set_scripts on an RPC thread; BlockFilters / BlockFilterHashes / CheckPoints on the filter protocol; SendBlock on the sync protocol; SendLastStateProof with or without rollback and SendBlocksProof on the light-client protocol; timers) x every write boundary k of A. The final store and in-memory matched blocks must equal the serial run A;B or B;A; if they equal neither, the script set must be a serial one and the sync must still converge to the reference index. No pair may stop making progress for 30 s.",
-   note="Reader snapshot isolation (get_cells / get_cells_capacity vs a concurrent writer) is not decided: it needs read-side pause points, see DESIGN.md.", ref="6/C17"),
+   note="Readers: a looping get_cells_capacity during a rollback-and-tip-update proof must only see states that exist at the proof's write boundaries. The snapshots of get_cells / get_transactions have no observable two-write inconsistency and are not decided.", ref="6/C17"),
  "C08": dict(cat="exploration", technique="fault injection over generated histories: crash (panic from the write hook) before the k-th storage write, restart from the same store, model-based comparison with the reference index; failures reproduced by a crash at the handler's boundaries are not attributed to the torn operation",
    text="Generated sync histories (first start, set_scripts of all kinds, deliveries, ticks, growth, fetch RPCs, restarts, fork switches) with up to 3 crash points drawn over the storage writes of the crash-free run; one history in eight tries every write point. After each crash the client is rebuilt from the store. Every start must succeed, an interrupted set_scripts is applied or not applied, and after a fair drain the index RPC answers equal the reference index (what the crash-free run, executed first, produces).",
    note="Fixed by this check: D5a-D5e (five crash windows). D20 (C04) histories are excluded by a manifest test.", ref="6/C08"),
